@@ -66,6 +66,19 @@ static Bytes nested_doc(int objs, int arrs, size_t strlen_) {
     return out;
 }
 
+// a document whose bytes value is itself a document, n levels deep ("envelopes"): data that looks like structure
+static Bytes envelope_doc(int n) {
+    Node inner; inner.t = V_OBJ;
+    { Node v; v.t = V_INT; v.i = 1; v.name = Bytes{'v'}; inner.kids.push_back(v); }
+    Bytes cur; encode(inner, cur);
+    for (int i = 0; i < n; i++) {
+        Node o; o.t = V_OBJ;
+        Node e; e.t = V_BYTES; e.name = Bytes{'e'}; e.s = cur; o.kids.push_back(e);
+        encode(o, cur);
+    }
+    return cur;
+}
+
 static void measure_doc(const Bytes &doc, int depth, Meas &m) {
     std::vector<binson_state> st((size_t)depth);
     binson_parser p; memset(&p, 0, sizeof p); p.state = st.data(); p.max_depth = (uint_fast8_t)depth;
@@ -203,16 +216,18 @@ int footprint_cmd(const std::string &json_path, const std::string &replay_dir) {
     std::vector<Variant> vs = {
         {"shallow-small", 1, 1, 4}, {"objects-2", 2, 1, 4}, {"objects-8", 8, 1, 4}, {"objects-64", 64, 1, 4}, {"objects-255", 255, 1, 4},
         {"arrays-8", 1, 8, 4}, {"arrays-64", 1, 64, 4}, {"arrays-255", 1, 255, 4}, {"both-100x100", 100, 100, 4},
-        {"string-1000", 1, 1, 1000}, {"string-65000", 1, 1, 65000}};
+        {"string-1000", 1, 1, 1000}, {"string-65000", 1, 1, 65000},
+        {"envelope-1", -1, 1, 0}, {"envelope-8", -8, 1, 0}, {"envelope-60", -60, 1, 0}};
     std::vector<Meas> ms(vs.size());
     std::vector<size_t> docsz(vs.size());
     on_big_stack([&] {
         for (size_t i = 0; i < vs.size(); i++) {
-            Bytes d = nested_doc(vs[i].objs, vs[i].arrs, vs[i].slen);
+            Bytes d = vs[i].objs < 0 ? envelope_doc(-vs[i].objs) : nested_doc(vs[i].objs, vs[i].arrs, vs[i].slen);
+            int dep = vs[i].objs < 0 ? 10 : vs[i].objs;     // envelopes: spare state levels, as an application using the default depth has
             docsz[i] = d.size();
-            measure_doc(d, vs[i].objs, ms[i]);      // warm-up pass (lazy binding, libc one-time initialisation)
+            measure_doc(d, dep, ms[i]);      // warm-up pass (lazy binding, libc one-time initialisation)
             ms[i] = Meas();
-            measure_doc(d, vs[i].objs, ms[i]);
+            measure_doc(d, dep, ms[i]);
         }
     });
     std::vector<size_t> pay = {4, 1000, 65000};
@@ -233,7 +248,9 @@ int footprint_cmd(const std::string &json_path, const std::string &replay_dir) {
             size_t v = ms[i].hw.count(kv.first) ? ms[i].hw.at(kv.first) : 0;
             j += fmt("%s\"%s\": %zu", i ? ", " : "", vs[i].name.c_str(), v);
             comparisons++;
-            if (v > kv.second + tol) { violations++; fails.push_back(fmt("%s uses %zu bytes of stack on %s (%zu-byte document) but %zu on %s: grows with the input", kv.first.c_str(), v, vs[i].name.c_str(), docsz[i], kv.second, vs[0].name.c_str())); }
+            size_t ref = kv.second;
+            if (vs[i].objs < 0) ref = ms[vs.size() - 3].hw.count(kv.first) ? ms[vs.size() - 3].hw.at(kv.first) : 0;      // envelopes are compared with envelope-1 (same kinds of leaves)
+            if (v > ref + tol) { violations++; fails.push_back(fmt("%s uses %zu bytes of stack on %s (%zu-byte document) but %zu on %s: grows with the input", kv.first.c_str(), v, vs[i].name.c_str(), docsz[i], ref, vs[i].objs < 0 ? "envelope-1" : vs[0].name.c_str())); }
             if (v > cap) { violations++; fails.push_back(fmt("%s uses %zu bytes of stack on %s (absolute cap %zu)", kv.first.c_str(), v, vs[i].name.c_str(), cap)); }
         }
         j += "}";
@@ -249,7 +266,9 @@ int footprint_cmd(const std::string &json_path, const std::string &replay_dir) {
             j += fmt("%s\"payload-%zu\": %zu", i ? ", " : "", pay[i], v);
             comparisons++;
             size_t tol = kv.first == "binson_writer_verify" ? 128 : 64;
-            if (v > kv.second + tol) { violations++; fails.push_back(fmt("%s uses %zu bytes of stack with a %zu-byte payload but %zu with %zu bytes", kv.first.c_str(), v, pay[i], kv.second, pay[0])); }
+            size_t ref = kv.second;
+            if (vs[i].objs < 0) ref = ms[vs.size() - 3].hw.count(kv.first) ? ms[vs.size() - 3].hw.at(kv.first) : 0;      // envelopes are compared with envelope-1 (same kinds of leaves)
+            if (v > ref + tol) { violations++; fails.push_back(fmt("%s uses %zu bytes of stack with a %zu-byte payload but %zu with %zu bytes", kv.first.c_str(), v, pay[i], kv.second, pay[0])); }
             if (v > 4096) { violations++; fails.push_back(fmt("%s uses %zu bytes of stack (absolute cap 4096)", kv.first.c_str(), v)); }
         }
         j += "}";
